@@ -36,6 +36,62 @@ def is_uniform(e: ast.AST, rn: Dict[str, ast.AST]) -> bool:
     return isinstance(e, ast.Name) and e.id in rn
 
 
+WIDE = ("torch.float32", "torch.float64", "torch.float", "torch.double", "torch.get_default_dtype()")
+
+
+def _is_wide_cast(e: ast.AST) -> bool:
+    """`e` contains a conversion to single / double precision."""
+    for c in ast.walk(e):
+        if isinstance(c, ast.Call) and isinstance(c.func, ast.Attribute) and c.func.attr in ("float", "double") and not c.args:
+            return True
+        if isinstance(c, ast.Call) and isinstance(c.func, ast.Attribute) and c.func.attr in ("to", "type") and any(unparse(a) in WIDE for a in list(c.args) + [k.value for k in c.keywords]):
+            return True
+        if isinstance(c, ast.Call) and any(k.arg == "dtype" and unparse(k.value) in WIDE for k in c.keywords):
+            return True
+    return False
+
+
+def lint_draw_dtype(rep: Report, fi: FuncInfo, rule: str = "BERNOULLI") -> int:
+    """The uniform variate behind `U < p` has the resolution of its dtype: `torch.rand_like(t)` draws in t's dtype, and a
+    half-precision U lives on a grid of 2^-8 (bfloat16) or 2^-11 (float16), so P(U < p) is p rounded to that grid - for an
+    input in half precision the channel then flips / erases at another rate than the configured one (p = 0.999 becomes 1).
+    The operand of every rand_like must therefore be single or double precision by construction: a cast in the operand, in
+    the definition(s) of the operand's base name, or an explicit dtype= argument."""
+    n = 0
+    params = {a.arg for a in fi.node.args.args + fi.node.args.kwonlyargs}
+
+    def wide(e: ast.AST, depth: int = 0) -> Optional[bool]:
+        if _is_wide_cast(e):
+            return True
+        base = e
+        while isinstance(base, (ast.Subscript, ast.Attribute)) or (isinstance(base, ast.Call) and isinstance(base.func, ast.Attribute) and base.func.attr in ("clone", "detach", "contiguous", "view", "reshape", "flatten")):
+            base = base.value if not isinstance(base, ast.Call) else base.func.value
+        if not isinstance(base, ast.Name) or depth > 4:
+            return None
+        defs = [s.value for s in ast.walk(fi.node) if isinstance(s, ast.Assign) and len(s.targets) == 1 and isinstance(s.targets[0], ast.Name) and s.targets[0].id == base.id]
+        # a definition in terms of the name itself alone (`y = 2 * y - 1`) keeps the dtype
+        defs = [d for d in defs if not ({x.id for x in ast.walk(d) if isinstance(x, ast.Name)} <= {base.id, "torch"} and not any(isinstance(x, ast.Call) for x in ast.walk(d)))]
+        if not defs:
+            return False if base.id in params else None
+        res = [wide(d, depth + 1) for d in defs]
+        if all(r is True for r in res) and base.id not in params:
+            return True
+        if any(r is False for r in res) or (base.id in params and not all(r is True for r in res)):
+            return False
+        return None
+
+    for c in ast.walk(fi.node):
+        if isinstance(c, ast.Call) and call_name(c) == "torch.rand_like" and c.args:
+            n += 1
+            if any(k.arg == "dtype" for k in c.keywords):
+                w = any(k.arg == "dtype" and unparse(k.value) in WIDE for k in c.keywords)
+            else:
+                w = wide(c.args[0])
+            # a lint: only the recognised wrong form (the operand is a parameter, or a view of one, never cast) is reported
+            rep.shape(w is not False, w is False, rule, fi, f"draw precision: {unparse(c)}", "the variates are drawn in single / double precision whatever the input's dtype" if w else "the operand is not a bare function parameter (its dtype is set elsewhere; not judged)", "the variates are drawn in the dtype of the input: for a half-precision input U lies on a grid of 2^-8 / 2^-11, so the event U < p has the probability of p rounded to that grid, not the configured one (p = 0.999 on bfloat16 input flips / erases every symbol)", node=c)
+    return n
+
+
 def bernoulli_sites(rep: Report, fi: FuncInfo, prob_attr: str) -> int:
     """Check every comparison that involves a uniform draw; returns the number of sites."""
     n = 0
@@ -706,6 +762,10 @@ def run(repo: Repo, rep: Report, tier: str) -> None:
                 n += lint_rng_discipline(rep, m_, "BERNOULLI")
     for f_ in repo.module(DG).functions.values():
         n += lint_rng_discipline(rep, f_, "BERNOULLI")
+        n += lint_draw_dtype(rep, f_)
+    for cname in ("BinarySymmetricChannel", "BinaryErasureChannel", "BinaryZChannel"):
+        for m_ in repo.cls(DG, cname).methods.values():
+            n += lint_draw_dtype(rep, m_)
     # a channel (or a helper of it) that works through the symbols block by block must visit every symbol: the tail left out
     # by a floor-divided block count never meets the transition law
     from .c20 import rule_chunk_cover
